@@ -453,18 +453,253 @@ def job_operator(cfg):
     return res
 
 
+class FakeState:
+    """duck-typed HyperElasticState handed to a law: the invariants are INDEPENDENT symbols i1, i2, i3 (> 0) and their first / second derivative
+    tables are arrays of fresh symbols.  What a law does with them (W, dWde = 2 sum dW/dI_k dI_k, d2Wde) is then checked for all invariant
+    values at once; that the real tables are the derivatives of the real invariants is a separate job (job_tables)."""
+
+    def __init__(self, c, nd):
+        from EasyFEA.FEM import FeArray
+
+        self.I = [c.var(f"i{k + 1}", Fraction(1, 4), 8, shadow=[3, 3, 1][k] + Fraction(k + 1, 7)) for k in range(3)]
+        self.g = [np.array([c.var(f"g{k + 1}_{a}", -2, 2) for a in range(nd)], dtype=object) for k in range(3)]
+        self.H = []
+        for k in range(3):
+            Hk = np.empty((nd, nd), dtype=object)
+            for a in range(nd):
+                for b in range(a, nd):
+                    Hk[a, b] = Hk[b, a] = c.var(f"h{k + 1}_{a}{b}", -2, 2)
+            self.H.append(Hk)
+        self._fe = FeArray
+        self.nd = nd
+
+    def _s(self, x):
+        a = np.empty((1, 1), dtype=object)
+        a[0, 0] = x
+        return self._fe.asfearray(a)
+
+    def _v(self, x):
+        return self._fe.asfearray(np.asarray(x, dtype=object).reshape((1, 1) + np.shape(x)))
+
+    def Compute_I1(self):
+        return self._s(self.I[0])
+
+    def Compute_I2(self):
+        return self._s(self.I[1])
+
+    def Compute_I3(self):
+        return self._s(self.I[2])
+
+    def Compute_dI1dC(self):
+        return self._v(self.g[0])
+
+    def Compute_dI2dC(self):
+        return self._v(self.g[1])
+
+    def Compute_dI3dC(self):
+        return self._v(self.g[2])
+
+    def Compute_d2I1dC(self):
+        return self._v(self.H[0])
+
+    def Compute_d2I2dC(self):
+        return self._v(self.H[1])
+
+    def Compute_d2I3dC(self):
+        return self._v(self.H[2])
+
+
+def job_law_invariants(cfg):
+    """law algebra in the invariants: dWde = 2 sum_k dW/dI_k dI_k and d2Wde = 4 sum_k dW/dI_k d2I_k + 4 sum_kl d2W/dI_k dI_l dI_k x dI_l, with the partial
+    derivatives taken symbolically from the law's own W(I1, I2, I3)"""
+    res = JobResult(cfg)
+    c = new_context()
+    facade.install()
+    name, dim = cfg["law"], cfg["dim"]
+    nd = 3 if dim == 2 else 6
+    key = f"{name} dim={dim} (invariant form)"
+    res.functions |= {f"{name}.Compute_W", f"{name}.Compute_dWde", f"{name}.Compute_d2Wde", "Models._utils TensorProd"}
+    st = FakeState(c, nd)
+    res.symbols = 3 + 3 * nd + 3 * nd * (nd + 1) // 2
+    law = make_law(name, dim)
+    mark = c.mark()
+    with facade.symbolic():
+        W = as_sym(np.asarray(law.Compute_W(st), dtype=object)[0, 0])
+        S = np.asarray(law.Compute_dWde(st), dtype=object)[0, 0]
+        D = np.asarray(law.Compute_d2Wde(st), dtype=object)[0, 0]
+    pcs = c.pc_since(mark)
+    res.paths, res.path_conditions = 1, len(pcs)
+    dW = [W.diff(i) for i in st.I]
+    d2W = [[dW[k].diff(st.I[l]) for l in range(3)] for k in range(3)]
+
+    def replay(env):
+        full = fenv(c, env)
+        Iv = [float(as_sym(x).eval(full)) for x in st.I]
+        gv = [np.array([float(as_sym(x).eval(full)) for x in g]) for g in st.g]
+
+        class Num:
+            def __init__(s_, I):
+                s_.I = I
+
+            def _s(s_, x):
+                from EasyFEA.FEM import FeArray
+                return FeArray.asfearray(np.array([[x]], dtype=float))
+
+            def _v(s_, x):
+                from EasyFEA.FEM import FeArray
+                return FeArray.asfearray(np.asarray(x, dtype=float).reshape((1, 1) + np.shape(x)))
+
+        ns = Num(Iv)
+        for k in range(3):
+            setattr(ns, f"Compute_I{k + 1}", (lambda k=k: ns._s(ns.I[k])))
+            setattr(ns, f"Compute_dI{k + 1}dC", (lambda k=k: ns._v(gv[k])))
+            setattr(ns, f"Compute_d2I{k + 1}dC", (lambda k=k: ns._v(np.zeros((nd, nd)))))
+        lawf = make_law(name, dim)
+        S0 = np.asarray(lawf.Compute_dWde(ns))[0, 0]
+        h = 1e-6
+        want = np.zeros(nd)
+        for k in range(3):
+            Ip, Im = list(Iv), list(Iv)
+            Ip[k] += h
+            Im[k] -= h
+            ns.I = Ip
+            wp = float(np.asarray(lawf.Compute_W(ns))[0, 0])
+            ns.I = Im
+            wm = float(np.asarray(lawf.Compute_W(ns))[0, 0])
+            want += 2 * (wp - wm) / (2 * h) * gv[k]
+        ns.I = Iv
+        err = float(np.abs(S0 - want).max())
+        return err > 1e-5 * max(1.0, float(np.abs(want).max())), {"invariants": Iv, "max|dWde - 2 sum dW/dI_k dI_k| (central differences)": err}
+
+    pairs1 = [(S[a], sum(dW[k] * st.g[k][a] for k in range(3)) * 2) for a in range(nd)]
+    close_all(res, f"{key}: dWde = 2 sum_k (dW/dI_k) dI_k/dC with dW/dI_k differentiated from the law's own W", pairs1, pcs, replay, f"{name} stress = derivative of the energy (invariant form)",
+              sample={"obligation": f"{key}: for all I1, I2, I3 > 0 and all tables: dWde[a] - 2 sum_k dW/dI_k g_k[a] = 0 (rational identity modulo the root definitions)"})
+    pairs2 = []
+    for a in range(nd):
+        for b in range(nd):
+            want = sum(dW[k] * st.H[k][a, b] for k in range(3)) * 4 + sum(d2W[k][l] * st.g[k][a] * st.g[l][b] for k in range(3) for l in range(3)) * 4
+            pairs2.append((D[a, b], want))
+    close_all(res, f"{key}: d2Wde = 4 sum_k dW/dI_k d2I_k + 4 sum_kl d2W/dI_k dI_l dI_k x dI_l", pairs2, pcs, replay, f"{name} tangent = derivative of the stress (invariant form)")
+    tw = prove_abs_le(as_sym(S[0]) - sum(dW[k] * st.g[k][0] for k in range(3)), TOL, pcs, "twin")
+    res.twin(f"{key} twin", tw.status == "cex")
+    res.stubs |= facade.USED_STUBS
+    return res
+
+
+def job_tables(cfg):
+    """the state's invariant tables are the derivatives of its invariants with respect to the right Cauchy-Green tensor (Kelvin-Mandel coordinates)"""
+    from EasyFEA.Models.HyperElastic._state import HyperElasticState
+    from EasyFEA.FEM import MatrixType, FeArray
+
+    res = JobResult(cfg)
+    c = new_context()
+    facade.install()
+    dim = cfg["dim"]
+    nd = 3 if dim == 2 else 6
+    key = f"invariant tables dim={dim}"
+    res.functions |= {"HyperElasticState.Compute_I1", "HyperElasticState.Compute_I2", "HyperElasticState.Compute_I3", "HyperElasticState.Compute_dI1dC", "HyperElasticState.Compute_dI2dC", "HyperElasticState.Compute_dI3dC",
+                      "HyperElasticState.Compute_d2I1dC", "HyperElasticState.Compute_d2I2dC", "HyperElasticState.Compute_d2I3dC", "HyperElasticState._Slice_Vector", "HyperElasticState._Slice_Matrix"}
+    facade.EXACT_SQRT2[0] = True
+    import EasyFEA.Models._utils as MU
+    from engine.sym import root
+
+    R2 = root(as_sym(2), 2)
+    saved = {}
+    for fn_name in ("Project_vector_to_matrix", "Project_matrix_to_vector"):
+        fn = getattr(MU, fn_name)
+        saved[fn_name] = fn.__defaults__
+        fn.__defaults__ = tuple(R2 if isinstance(d, float) and abs(d - 2 ** 0.5) < 1e-15 else d for d in fn.__defaults__)
+    try:
+        mesh = one_element(dim)
+        g = mesh.groupElem
+        # Kelvin-Mandel coordinates of C: [c11, c22, (c33), (r c23, r c13,) r c12]
+        names = ["c11", "c22", "k12"] if dim == 2 else ["c11", "c22", "c33", "k23", "k13", "k12"]
+        shadow = [Fraction(5, 4), Fraction(9, 8), Fraction(1, 8)] if dim == 2 else [Fraction(5, 4), Fraction(9, 8), Fraction(11, 8), Fraction(1, 8), Fraction(-1, 16), Fraction(3, 16)]
+        ch = [c.var(n, -2, 2, shadow=sh) for n, sh in zip(names, shadow)]
+        res.symbols = nd
+        if dim == 2:
+            Cm = np.array([[ch[0], ch[2] / R2, 0], [ch[2] / R2, ch[1], 0], [0, 0, 1]], dtype=object)
+        else:
+            Cm = np.array([[ch[0], ch[5] / R2, ch[4] / R2], [ch[5] / R2, ch[1], ch[3] / R2], [ch[4] / R2, ch[3] / R2, ch[2]]], dtype=object)
+
+        class SymCState(HyperElasticState):
+            def Compute_C(self_):
+                return FeArray.asfearray(Cm.reshape(1, 1, 3, 3))
+
+        mark = c.mark()
+        with facade.symbolic():
+            st = SymCState(g, np.zeros(mesh.Nn * dim), MatrixType.rigi)
+            I = [as_sym(np.asarray(f(), dtype=object).reshape(-1)[0]) for f in (st.Compute_I1, st.Compute_I2, st.Compute_I3)]
+            G = [np.asarray(f(), dtype=object).reshape(-1) for f in (st.Compute_dI1dC, st.Compute_dI2dC, st.Compute_dI3dC)]
+            Hh = [np.asarray(f(), dtype=object) for f in (st.Compute_d2I1dC, st.Compute_d2I2dC, st.Compute_d2I3dC)]
+            Hh = [h.reshape(h.shape[-2:]) for h in Hh]
+        pcs = c.pc_since(mark)
+        res.paths, res.path_conditions = 1, len(pcs)
+
+        def replay(env):
+            full = fenv(c, env)
+            cv = np.array([float(as_sym(x).eval(full)) for x in ch])
+            r2 = np.sqrt(2)
+
+            def Cof(v):
+                if dim == 2:
+                    return np.array([[v[0], v[2] / r2, 0], [v[2] / r2, v[1], 0], [0, 0, 1.0]])
+                return np.array([[v[0], v[5] / r2, v[4] / r2], [v[5] / r2, v[1], v[3] / r2], [v[4] / r2, v[3] / r2, v[2]]])
+
+            class NumC(HyperElasticState):
+                def __init__(s_, v):
+                    HyperElasticState.__init__(s_, g, np.zeros(mesh.Nn * dim), MatrixType.rigi)
+                    s_.v = v
+
+                def Compute_C(s_):
+                    return FeArray.asfearray(Cof(s_.v).reshape(1, 1, 3, 3))
+
+            errs = {}
+            h = 1e-6
+            bad = False
+            for k, nm in enumerate(("I1", "I2", "I3")):
+                tab = np.asarray(getattr(NumC(cv), f"Compute_d{nm}dC")()).reshape(-1)
+                fd = np.zeros(nd)
+                for a in range(nd):
+                    vp, vm = cv.copy(), cv.copy()
+                    vp[a] += h
+                    vm[a] -= h
+                    fd[a] = (float(np.asarray(getattr(NumC(vp), f"Compute_{nm}")()).reshape(-1)[0]) - float(np.asarray(getattr(NumC(vm), f"Compute_{nm}")()).reshape(-1)[0])) / (2 * h)
+                errs[f"max|d{nm}dC - finite difference|"] = float(np.abs(tab - fd).max())
+                bad = bad or errs[f"max|d{nm}dC - finite difference|"] > 1e-5
+            return bad, {"C_kelvin_mandel": cv.tolist(), **errs}
+
+        for k in range(3):
+            close_all(res, f"{key}: dI{k + 1}dC = dI{k + 1}/dC (Kelvin-Mandel coordinates)", [(G[k][a], I[k].diff(ch[a])) for a in range(nd)], pcs, replay, f"invariant table dI{k + 1}dC dim={dim}",
+                      sample=None if k else {"obligation": f"{key}: for all symmetric C: dI_k dC[a] - d I_k / d c_a = 0, d2I_k dC[a,b] - d2 I_k / d c_a d c_b = 0 (polynomial identities modulo r^2 = 2)"})
+            close_all(res, f"{key}: d2I{k + 1}dC = d2I{k + 1}/dC2", [(Hh[k][a, b], I[k].diff(ch[a]).diff(ch[b])) for a in range(nd) for b in range(nd)], pcs, replay, f"invariant table d2I{k + 1}dC dim={dim}")
+        tw = prove_abs_le(as_sym(G[1][0]) - I[1].diff(ch[0]) * 2, TOL, pcs, "twin")
+        res.twin(f"{key} twin", tw.status == "cex")
+    finally:
+        for fn_name, d in saved.items():
+            getattr(MU, fn_name).__defaults__ = d
+    res.stubs |= facade.USED_STUBS
+    return res
+
+
 def job(cfg):
-    return job_law(cfg) if cfg["kind"] == "law" else job_operator(cfg)
+    return {"law": job_law, "operator": job_operator, "law_invariants": job_law_invariants, "tables": job_tables}[cfg["kind"]](cfg)
 
 
 def main():
     t0 = time.time()
     tier = harness.tier()
     configs = []
-    for law in LAWS:
+    for dim in (2, 3):
+        configs.append({"kind": "tables", "dim": dim})
+        for law in LAWS:
+            configs.append({"kind": "law_invariants", "law": law, "dim": dim})
+    # end-to-end through the displacement (stress = dW/de along every admissible direction, objectivity, stress-free reference)
+    for law in ("NeoHookean", "MooneyRivlin", "SaintVenantKirchhoff"):
         configs.append({"kind": "law", "law": law, "dim": 2})
-        if tier == "thorough" or law in ("NeoHookean", "SaintVenantKirchhoff"):
-            configs.append({"kind": "law", "law": law, "dim": 3})
+    configs.append({"kind": "law", "law": "SaintVenantKirchhoff", "dim": 3})
+    if tier == "thorough":
+        configs.append({"kind": "law", "law": "NeoHookean", "dim": 3})
     for op, laws in (("SecondPiolaKirchhoffStressTensor", ["SaintVenantKirchhoff", "Polynomial", "NeoHookean"]), ("ActiveStressTensor", ["SaintVenantKirchhoff"]), ("KelvinVoigtDamping", ["SaintVenantKirchhoff"])):
         for law in laws:
             cfgo = {"kind": "operator", "op": op, "law": law, "dim": 2}
